@@ -695,7 +695,7 @@ func (g *c19Gen) payload() any {
 	g.c.Count(fmt.Sprintf("payload.wrap%d", depth))
 	for i := 0; i < depth; i++ {
 		w := map[string]any{"hledger": v}
-		if r.IntN(5) == 0 { // siblings next to the wrapper
+		if r.IntN(12) == 0 { // siblings next to the wrapper
 			for k, val := range g.settingsMap() {
 				w[k] = val
 			}
@@ -703,7 +703,7 @@ func (g *c19Gen) payload() any {
 		}
 		v = w
 	}
-	if r.IntN(20) == 0 { // wrapper member of the wrong type, with siblings
+	if r.IntN(40) == 0 { // wrapper member of the wrong type, with siblings
 		m := v.(map[string]any)
 		m["hledger"] = pick(r, []any{nil, num("1"), "x", []any{}, true})
 		g.c.Count("payload.wrapper-ill-typed")
@@ -892,8 +892,7 @@ func (ru *c19Run) state() map[string]any {
 
 // waitSpawn: a refresh goroutine was just started; wait until it has either finished or is
 // blocked inside the client's Configuration call.
-func (ru *c19Run) waitSpawn() {
-	before := ru.cl.nCalls()
+func (ru *c19Run) waitSpawn(before int) {
 	deadline := time.Now().Add(20 * time.Second)
 	for i := 0; ; i++ {
 		if ru.cl.nCalls() > before {
@@ -1003,8 +1002,9 @@ func c19SeqCase(c *Ctx, events []any) map[string]any {
 				st["caps"] = c19CapsView(res)
 			}
 		case "initialized":
+			before := ru.cl.nCalls()
 			_ = ru.srv.Initialized(ctx, &protocol.InitializedParams{})
-			ru.waitSpawn()
+			ru.waitSpawn(before)
 		case "change":
 			txt, _ := m["txt"].(string)
 			var params protocol.DidChangeConfigurationParams
@@ -1015,8 +1015,9 @@ func c19SeqCase(c *Ctx, events []any) map[string]any {
 				break
 			}
 			oe["p"] = c19Tag(params.Settings)
+			before := ru.cl.nCalls()
 			_ = ru.srv.DidChangeConfiguration(ctx, &params)
-			ru.waitSpawn()
+			ru.waitSpawn(before)
 		case "answer":
 			i := int(c19Num(m["task"]))
 			var ps []any
@@ -1048,7 +1049,8 @@ func c19SeqCase(c *Ctx, events []any) map[string]any {
 			ru.cl.calls[call] <- rep
 			c19WaitGoroutines(ru.base + len(ru.pending))
 		case "observe":
-			st["obs"] = ru.observe(c)
+			reuse, _ := m["reuse"].(bool)
+			st["obs"] = ru.observe(c, reuse)
 		}
 		for k, v := range ru.state() {
 			st[k] = v
@@ -1094,14 +1096,14 @@ account equity:box:petty
 
 const c19FormatDoc = `2024-01-01 shop
   expenses:food  10 USD
-  assets:cash
+  a:b  -10 USD
 `
 
 const c19DiagDoc = `account assets:cash
 commodity USD
 
 2024-01-01 shop
-    expenses:food  10 USD
+    misc:food  10 USD
     assets:cash  -9 USD
 
 2024-01-02 shop
@@ -1109,7 +1111,15 @@ commodity USD
     assets:cash  -1 EUR
 `
 
-func (ru *c19Run) observe(c *Ctx) map[string]any {
+const c19InlineDoc = `2024-01-01 shop
+    expenses:food  10 USD
+    assets:cash
+
+2024-01-02 shop
+
+`
+
+func (ru *c19Run) observe(c *Ctx, reuse bool) map[string]any {
 	ctx := context.Background()
 	obs := map[string]any{}
 	srv := ru.srv
@@ -1137,30 +1147,102 @@ func (ru *c19Run) observe(c *Ctx) map[string]any {
 			}
 		}
 		obs["completionItems"] = n
-		obs["fuzzyOnlyItem"] = fuzzyOnly
 		obs["countsShown"] = counts
+		_ = fuzzyOnly
+		// second probe: a query no label starts with
+		doc2 := strings.TrimSuffix(c19CompletionDoc, "exp") + "xp"
+		srv.StoreDocument(u, doc2)
+		res2, err := srv.Completion(ctx, &protocol.CompletionParams{
+			TextDocumentPositionParams: protocol.TextDocumentPositionParams{
+				TextDocument: protocol.TextDocumentIdentifier{URI: u},
+				Position:     protocol.Position{Line: uint32(last), Character: uint32(len(lines[last]) - 1)},
+			}})
+		n2 := -1
+		if err == nil && res2 != nil {
+			n2 = len(res2.Items)
+		}
+		obs["subsequenceItems"] = n2
 	}
-	// formatting: indent and alignment column
+	// formatting: indent and alignment column.  The formatter allocates indent / padding
+	// strings of the configured width, so widths between 10^3 and 2^50 are not probed (they
+	// would exhaust memory); from 2^50 on the allocation is refused and the handler panics.
 	{
-		u := protocol.DocumentURI("file:///c19/format.journal")
-		srv.StoreDocument(u, c19FormatDoc)
-		edits, err := srv.Format(ctx, &protocol.DocumentFormattingParams{TextDocument: protocol.TextDocumentIdentifier{URI: u}})
-		indent, col := -1, -1
-		if err == nil {
-			text := c19ApplyEdits(c19FormatDoc, edits)
-			for _, ln := range strings.Split(text, "\n") {
-				t := strings.TrimLeft(ln, " ")
-				if strings.HasPrefix(t, "expenses:food") {
-					indent = len(ln) - len(t)
-					col = strings.Index(ln, "10 USD")
+		cur := srv.VerifGetSettings()
+		wi, wm := int64(cur.Formatting.IndentSize), int64(cur.Formatting.MinAlignmentColumn)
+		mid := func(v int64) bool { return v > 1000 && v < 1<<50 }
+		if mid(wi) || mid(wm) {
+			obs["format"] = "skipped"
+		} else {
+			u := protocol.DocumentURI("file:///c19/format.journal")
+			srv.StoreDocument(u, c19FormatDoc)
+			indent, col, panicked := -1, -1, false
+			func() {
+				defer func() {
+					if recover() != nil {
+						panicked = true
+					}
+				}()
+				edits, err := srv.Format(ctx, &protocol.DocumentFormattingParams{TextDocument: protocol.TextDocumentIdentifier{URI: u}})
+				if err == nil {
+					text := c19ApplyEdits(c19FormatDoc, edits)
+					for _, ln := range strings.Split(text, "\n") {
+						t := strings.TrimLeft(ln, " ")
+						if strings.HasPrefix(t, "a:b") {
+							indent = len(ln) - len(t)
+							col = strings.Index(ln, "-10 USD")
+						}
+					}
 				}
+			}()
+			if panicked {
+				obs["format"] = "panic"
+			} else {
+				obs["format"] = map[string]any{"indent": indent, "amountColumn": col}
 			}
 		}
-		obs["indent"] = indent
-		obs["amountColumn"] = col
+	}
+	// feature switches after initialisation: hover (handler never consults the settings) and
+	// inline completion (handler does)
+	{
+		u := protocol.DocumentURI("file:///c19/completion.journal")
+		srv.StoreDocument(u, c19CompletionDoc)
+		h, err := srv.Hover(ctx, &protocol.HoverParams{TextDocumentPositionParams: protocol.TextDocumentPositionParams{
+			TextDocument: protocol.TextDocumentIdentifier{URI: u}, Position: protocol.Position{Line: 10, Character: 8}}})
+		obs["hoverAnswers"] = err == nil && h != nil
+		cur := srv.VerifGetSettings()
+		wi := int64(cur.Formatting.IndentSize)
+		if cur.Features.InlineCompletion && wi > 1000 && wi < 1<<50 {
+			obs["inline"] = "skipped"
+		} else {
+			u2 := protocol.DocumentURI("file:///c19/inline.journal")
+			srv.StoreDocument(u2, c19InlineDoc)
+			_ = srv.DidSave(ctx, &protocol.DidSaveTextDocumentParams{TextDocument: protocol.TextDocumentIdentifier{URI: u2}})
+			items, indent, panicked := -1, -1, false
+			func() {
+				defer func() {
+					if recover() != nil {
+						panicked = true
+					}
+				}()
+				raw := []byte(`{"textDocument":{"uri":"file:///c19/inline.journal"},"position":{"line":5,"character":0}}`)
+				res, err := srv.InlineCompletion(ctx, raw)
+				if err == nil && res != nil {
+					items = len(res.Items)
+					if items > 0 {
+						t := res.Items[0].InsertText
+						indent = len(t) - len(strings.TrimLeft(t, " "))
+					}
+				}
+			}()
+			if panicked {
+				obs["inline"] = "panic"
+			} else {
+				obs["inline"] = map[string]any{"items": items, "indent": indent}
+			}
+		}
 	}
 	// diagnostics: which categories are published
-	if ru.srv != nil {
+	{
 		u := protocol.DocumentURI("file:///c19/diag.journal")
 		ru.cl.mu.Lock()
 		ru.cl.published = nil
@@ -1198,6 +1280,10 @@ func (ru *c19Run) observe(c *Ctx) map[string]any {
 	}
 	// include limits: chain main -> a -> b -> c
 	{
+		if ru.dir != "" && !reuse {
+			os.RemoveAll(ru.dir)
+			ru.dir = ""
+		}
 		if ru.dir == "" {
 			d, err := os.MkdirTemp(c.Tmp, "c19-")
 			if err != nil {
@@ -1275,9 +1361,143 @@ func c19ApplyEdits(doc string, edits []protocol.TextEdit) string {
 	return out
 }
 
-func genC19Seq(c *Ctx) {
-	// filled in below (c19seq.go would be a second file; kept here to stay in one place)
-	genC19SeqImpl(c)
+func c19Text(v any) string {
+	var buf bytes.Buffer
+	enc := stdjson.NewEncoder(&buf)
+	enc.SetEscapeHTML(false)
+	if err := enc.Encode(v); err != nil {
+		panic(err)
+	}
+	return strings.TrimSpace(buf.String())
 }
 
-func genC19SeqImpl(c *Ctx) {}
+// genC19Seq: sequences of at most 4 configuration payloads (initialisation + changes) on a
+// real server, serial and with overlapping refresh tasks.
+func genC19Seq(c *Ctx) {
+	r := c.R
+	g := &c19Gen{r: r, c: c, safe: true}
+	for i := 0; i < c.N(700, 20000); i++ {
+		var events []any
+		budget := 4
+		observe := r.IntN(3) == 0
+		first := map[string]any{}
+		// initialisation
+		cfg := any(true)
+		switch r.IntN(10) {
+		case 0, 1:
+			cfg = false
+		case 2:
+			cfg = nil
+		}
+		first["k"] = "init"
+		first["cfg"] = cfg
+		if r.IntN(4) == 0 {
+			first["txt"] = "null"
+		} else {
+			first["txt"] = g.payloadText()
+			budget--
+		}
+		if r.IntN(40) == 0 {
+			first["client"] = false
+			c.Count("seq.no-client")
+		}
+		events = append(events, first)
+		if observe {
+			events = append(events, map[string]any{"k": "observe"})
+		}
+		if r.IntN(2) == 0 {
+			events = append(events, map[string]any{"k": "initialized"})
+			if cfg == true && first["client"] == nil {
+				// the pull after `initialized` returns the same options (or nothing)
+				switch r.IntN(3) {
+				case 0:
+					events = append(events, map[string]any{"k": "answer", "task": 0, "txts": []any{"null"}})
+				case 1:
+					events = append(events, map[string]any{"k": "answer", "task": 0, "err": true})
+				default:
+					events = append(events, map[string]any{"k": "answer", "task": 0, "txts": []any{}})
+				}
+			}
+		}
+		overlap := r.IntN(5) == 0
+		nch := 1 + r.IntN(budget)
+		if overlap {
+			c.Count("seq.overlap")
+			if nch < 2 {
+				nch = 2
+			}
+			var answers []any
+			for j := 0; j < nch; j++ {
+				p := g.payload()
+				pushed, pulled := c19PushPull(r, p)
+				events = append(events, map[string]any{"k": "change", "txt": pushed})
+				answers = append(answers, map[string]any{"k": "answer", "txts": []any{pulled}})
+			}
+			// answer in a random order: "task" indexes the list of still pending pulls
+			left := nch
+			perm := r.Perm(nch)
+			done := make([]bool, nch)
+			for _, k := range perm {
+				idx := 0
+				for q := 0; q < k; q++ {
+					if !done[q] {
+						idx++
+					}
+				}
+				done[k] = true
+				a := answers[k].(map[string]any)
+				a["task"] = idx
+				events = append(events, a)
+				left--
+			}
+			if observe {
+				events = append(events, map[string]any{"k": "observe"})
+			}
+		} else {
+			c.Count("seq.serial")
+			for j := 0; j < nch; j++ {
+				p := g.payload()
+				pushed, pulled := c19PushPull(r, p)
+				events = append(events, map[string]any{"k": "change", "txt": pushed})
+				ans := map[string]any{"k": "answer", "task": 0, "txts": []any{pulled}}
+				switch r.IntN(16) {
+				case 0:
+					ans = map[string]any{"k": "answer", "task": 0, "err": true}
+					c.Count("seq.pull-error")
+				case 1:
+					ans = map[string]any{"k": "answer", "task": 0, "txts": []any{}}
+					c.Count("seq.pull-empty")
+				case 2:
+					ans = map[string]any{"k": "answer", "task": 0, "txts": []any{pulled, g.payloadText()}}
+					c.Count("seq.pull-two")
+				case 3:
+					ans = map[string]any{"k": "answer", "task": 0, "txts": []any{g.payloadText()}}
+					c.Count("seq.pull-unrelated")
+				}
+				events = append(events, ans)
+				if observe && (j == nch-1 || r.IntN(2) == 0) {
+					ev := map[string]any{"k": "observe"}
+					if r.IntN(2) == 0 {
+						ev["reuse"] = true
+						c.Count("seq.observe-warm")
+					}
+					events = append(events, ev)
+				}
+			}
+		}
+		if observe {
+			c.Count("seq.observed")
+		}
+		c.Emit("c19.seq", c19SeqCase(c, events))
+	}
+}
+
+// c19PushPull: what a conforming client pushes in didChangeConfiguration and what it
+// answers to workspace/configuration(section "hledger") for the same settings.
+func c19PushPull(r *rand.Rand, p any) (string, string) {
+	pulled := c19Text(p)
+	if r.IntN(2) == 0 {
+		return c19Text(map[string]any{"hledger": p}), pulled
+	}
+	return pulled, pulled
+}
